@@ -119,6 +119,33 @@ struct Parsed {
     vertices: Vec<(u64, f64, f64)>,
 }
 
+/// The dimension token of the (single) [META] line, when there is one three-token line under a
+/// single [META] header and the token is a number.
+fn announced_dimension(text: &str) -> Option<u64> {
+    let mut in_meta = false;
+    let mut found: Option<u64> = None;
+    let mut headers = 0;
+    for line in text.lines() {
+        let l = line.split('#').next().unwrap().trim();
+        if l.is_empty() {
+            continue;
+        }
+        if l.starts_with('[') {
+            in_meta = l.trim_matches(|c| c == '[' || c == ']').eq_ignore_ascii_case("meta");
+            headers += usize::from(in_meta);
+            continue;
+        }
+        if in_meta {
+            let t: Vec<&str> = l.split_whitespace().collect();
+            if t.len() != 3 || found.is_some() {
+                return None;
+            }
+            found = Some(t[1].parse().ok()?);
+        }
+    }
+    if headers == 1 { found } else { None }
+}
+
 /// Reader of the documented cmap format, written independently of the loader. None = this
 /// reader cannot make sense of the text (then only "no panic, well-formed" is asserted).
 fn independent_read(text: &str) -> Option<Parsed> {
@@ -246,6 +273,12 @@ fn judge_map<T: CoordsFloat>(map: &CMap2<T>, text: &str) -> Outcome {
     }
     if let Err(e) = wf_real(map) {
         return Outcome::Violation("ill-formed-map-returned", e);
+    }
+    // a header that announces another dimension does not describe a 2-map at all
+    if let Some(dim) = announced_dimension(text) {
+        if dim != 2 {
+            return Outcome::Violation("map-disagrees-with-text", format!("the [META] line announces dimension {dim}, yet a 2-map was built"));
+        }
     }
     let Some(p) = independent_read(text) else { return Outcome::OkUnclaimed };
     for i in 0..3 {
